@@ -2820,6 +2820,18 @@ func (a *Agent) handlePeerDisconnect(conn *peer.Connection, err error) {
 	}
 	a.streamMgr.ResetStreamsForPeer(peerID, protocol.ErrHostUnreachable)
 
+	// The same holds for file transfers and shell sessions served for, or
+	// opened through, this peer: nothing would ever close them otherwise.
+	a.cleanupFileTransferStreamsForPeer(peerID)
+	a.closeShellClientStreamsForPeer(peerID)
+	if a.shellHandler != nil {
+		// Ending a command waits for its process: not in the disconnect callback.
+		go func() {
+			defer recovery.RecoverWithLog(a.logger, "shellHandler.CloseStreamsForPeer")
+			a.shellHandler.CloseStreamsForPeer(peerID)
+		}()
+	}
+
 	// Clean up routes learned from this peer
 	a.routeMgr.HandlePeerDisconnect(peerID)
 	a.routeMgr.HandlePeerDisconnectDomain(peerID)
@@ -5644,6 +5656,46 @@ func (a *Agent) handleShellClientData(streamID uint64, data []byte, flags uint8)
 	}
 
 	return true
+}
+
+// closeShellClientStreamsForPeer ends every shell client session whose first
+// hop is peerID (the connection to that peer is gone).
+func (a *Agent) closeShellClientStreamsForPeer(peerID identity.AgentID) {
+	a.shellClientMu.RLock()
+	sessions := make(map[uint64]*health.ShellStreamAdapter, len(a.shellClientStreams))
+	for id, adapter := range a.shellClientStreams {
+		sessions[id] = adapter
+	}
+	a.shellClientMu.RUnlock()
+
+	for id, adapter := range sessions {
+		if adapter.NextHop() != peerID {
+			continue
+		}
+		a.shellClientMu.Lock()
+		if a.shellClientStreams[id] == adapter {
+			delete(a.shellClientStreams, id)
+		}
+		a.shellClientMu.Unlock()
+		adapter.Close()
+	}
+}
+
+// cleanupFileTransferStreamsForPeer drops every file transfer served for
+// peerID (the connection to that peer is gone).
+func (a *Agent) cleanupFileTransferStreamsForPeer(peerID identity.AgentID) {
+	a.fileStreamsMu.RLock()
+	var ids []uint64
+	for id, fts := range a.fileStreams {
+		if fts.PeerID == peerID {
+			ids = append(ids, id)
+		}
+	}
+	a.fileStreamsMu.RUnlock()
+
+	for _, id := range ids {
+		a.cleanupFileTransferStream(id)
+	}
 }
 
 // handleShellClientClose handles close of a shell client stream.
